@@ -171,13 +171,13 @@ Qed.
 Lemma level_all_empty0 : forall d fr, level_all_empty d 0 (CN fr) = cempty d (CN fr).
 Proof. intros. unfold level_all_empty. simpl. apply andb_true_r. Qed.
 
-Lemma holds_identity : forall c r, c09_wf c = true -> c09_run c = Some r ->
+Lemma holds_identity : forall c r, c09_wf c = true -> c09_run c = Some r -> op_mfn c = mf_sum ->
   (forall p, op_img c p = p) -> out_depth c = k_n c ->
   ccontent (k_d c) (CN r) = ccontent (k_d c) (inj (k_tree c)) ->
   csorted (CN r) = true -> cdepth_ok (k_n c) (CN r) = true ->
   c09_holds c (c09_model c) = true.
 Proof.
-  intros c r Hwf Hrun Himg Hod Hc Hs Hd. destruct (c09_wf_parts c Hwf) as [_ [_ [_ [Hs0 _]]]].
+  intros c r Hwf Hrun Hm Himg Hod Hc Hs Hd. destruct (c09_wf_parts c Hwf) as [_ [_ [_ [Hs0 _]]]].
   apply (holds_of_parts c r); auto; [rewrite Hod; exact Hd|].
   apply content_ok_of_perm.
   - apply content_NoDup. exact Hs0.
@@ -211,7 +211,7 @@ Proof.
       [repeat split; assumption|].
     destruct (good_top n r' Gr' ltac:(lia)) as [G1 G2].
     apply (holds_identity c r'); auto.
-    + unfold c09_run. rewrite Hop. fold es d n. unfold t_merge, merge_ranks, obind.
+    + unfold c09_run. rewrite Hop. fold es d n. unfold t_merge_f, merge_ranks_f, obind.
       unfold f12 in Er'. destruct (merge_helper (S l) style true (S n) (k_shape c) d es) as [fr|]; [|discriminate].
       unfold t_unflatten. rewrite level_all_empty0. exact Er'.
     + fold d. rewrite Cr', Et'. reflexivity.
@@ -227,7 +227,7 @@ Proof.
                              ex_intro _ (flat_ref l style sh' d s) A) k es Hat) as [r1' [Er1' Hshape]].
     rewrite Er1 in Er1'. inversion Er1'; subst r1'.
     assert (Hrun : c09_run c = if level_all_empty d (S k) (CN r1) then Some [] else upd_below k (unflatten (S l)) d r1).
-    { unfold c09_run. rewrite Hop. fold es d n. unfold t_merge, merge_ranks. fold sh' f1. rewrite Er1. reflexivity. }
+    { unfold c09_run. rewrite Hop. fold es d n. unfold t_merge_f, merge_ranks_f. fold sh' f1. rewrite Er1. reflexivity. }
     destruct (level_all_empty d (S k) (CN r1)) eqn:Eall.
     + assert (Hc1 : ccontent d (CN r1) = []) by (apply (all_empty_content (fun _ => True) d k r1 Hshape Eall)).
       rewrite Hc1 in Cr1. symmetry in Cr1. apply map_eq_nil in Cr1.
@@ -264,7 +264,7 @@ Proof.
   - destruct (sf_fiber step (S n) n (k_shape c) d es ltac:(lia)) as [_ [Cr Gr]]; [repeat split; assumption|].
     destruct (good_top n _ Gr ltac:(lia)) as [G1 G2].
     apply (holds_identity c (cpresent d es)); auto.
-    + unfold c09_run. rewrite Hop. fold es d n. simpl modify_root. unfold obind, t_merge, merge_ranks.
+    + unfold c09_run. rewrite Hop. fold es d n. simpl modify_root. unfold obind, t_merge_f, merge_ranks_f.
       apply split_flatten_abs. apply csorted_CN in Hs. tauto.
     + fold d. rewrite Cr, Et'. reflexivity.
   - set (sh' := skipn (S k) (k_shape c)). set (N' := (n - S k)%nat).
@@ -274,7 +274,7 @@ Proof.
     destruct (below_total (Wb N' sh') f1 d (fun s _ => ex_intro _ (split_uniform step d s) eq_refl) k es Hat)
       as [r1 [Er1 _]].
     assert (Hrun : c09_run c = upd_below k f2 d r1).
-    { unfold c09_run. rewrite Hop. fold es d n. simpl modify_root. fold f1. rewrite Er1. unfold obind, t_merge, merge_ranks.
+    { unfold c09_run. rewrite Hop. fold es d n. simpl modify_root. fold f1. rewrite Er1. unfold obind, t_merge_f, merge_ranks_f.
       replace (skipn (S k) (@nil Z)) with (@nil Z) by (destruct k; reflexivity). reflexivity. }
     rewrite (upd_below_compose f1 f2 d k es r1 Er1) in Hrun.
     set (f := f12 f1 f2 d) in *.
